@@ -62,30 +62,57 @@ Lemma rinv_upd rs rid r' :
   (forall k, rinv (rs k)) -> rinv r' -> forall k, rinv (upd rs rid r' k).
 Proof. intros H Hr k. unfold upd. destruct (Nat.eqb k rid); auto. Qed.
 
+Ltac close_counts Hlt Hc :=
+  let b' := fresh "b'" in
+  intro b'; cbn [counts reqs]; rewrite inflight_upd by exact Hlt; cbn [held];
+  rewrite ?dec_opt_at, ?inc_at, Hc.
+
 Lemma step_inv n s rid o s' :
   (rid < n)%nat -> inv n s -> step s rid o = Some s' -> inv n s'.
 Proof.
   intros Hlt [Hc Hr] Hs. unfold step in Hs. pose proof (Hr rid) as Hrid. unfold rinv in Hrid.
   destruct (ph (reqs s rid)) eqn:P; destruct o; try discriminate.
   - (* PLoop BalanceOk *) inversion Hs; subst; clear Hs. split.
-    + intro b'. cbn [counts reqs]. rewrite inflight_upd by exact Hlt. cbn [held]. rewrite dec_opt_at, Hc, Hrid. cbn [ind]. lia.
+    + close_counts Hlt Hc. rewrite Hrid. cbn [ind]. lia.
     + cbn [reqs]. apply rinv_upd; [exact Hr|]. unfold rinv; cbn. split; [reflexivity|discriminate].
   - (* PLoop BalanceErr *) inversion Hs; subst; clear Hs. split.
-    + intro b'. cbn [counts reqs]. rewrite inflight_upd by exact Hlt. cbn [held]. rewrite Hc. lia.
+    + close_counts Hlt Hc. lia.
     + cbn [reqs]. apply rinv_upd; [exact Hr|]. unfold rinv; cbn. exact Hrid.
+  - (* PLoop TunnelPick *) destruct (trans (reqs s rid)) eqn:T; [discriminate|].
+    inversion Hs; subst; clear Hs. split.
+    + close_counts Hlt Hc. rewrite <- Hrid. cbn [ind]. lia.
+    + cbn [reqs]. apply rinv_upd; [exact Hr|]. unfold rinv; cbn. split; [reflexivity|discriminate].
+  - (* PLoop TunnelGiveUp *) destruct (trans (reqs s rid)) eqn:T; [discriminate|].
+    inversion Hs; subst; clear Hs. split.
+    + close_counts Hlt Hc. rewrite <- Hrid. cbn [ind]. lia.
+    + cbn [reqs]. apply rinv_upd; [exact Hr|]. unfold rinv; cbn. reflexivity.
   - (* PChosen ForwardFinish *) inversion Hs; subst; clear Hs. destruct Hrid as [Hh Ht]. split.
-    + intro b'. cbn [counts reqs]. rewrite inflight_upd by exact Hlt. cbn [held]. rewrite Hc. lia.
+    + close_counts Hlt Hc. lia.
     + cbn [reqs]. apply rinv_upd; [exact Hr|]. unfold rinv; cbn. symmetry; exact Hh.
   - (* PChosen ForwardGoOn *) destruct Hrid as [Hh Ht]. destruct (trans (reqs s rid)) as [b0|] eqn:T; [|discriminate].
     inversion Hs; subst; clear Hs. split.
-    + intro b'. cbn [counts reqs]. rewrite inflight_upd by exact Hlt. cbn [held]. rewrite inc_at, Hc, Hh. cbn [ind]. lia.
+    + close_counts Hlt Hc. rewrite Hh. cbn [ind]. lia.
     + cbn [reqs]. apply rinv_upd; [exact Hr|]. unfold rinv; cbn. split; [reflexivity|discriminate].
   - (* PSent RoundTrip *) inversion Hs; subst; clear Hs. destruct Hrid as [Hh Ht]. split.
-    + intro b'. cbn [counts reqs]. rewrite inflight_upd by exact Hlt. cbn [held]. rewrite Hc. lia.
+    + close_counts Hlt Hc. lia.
     + cbn [reqs]. apply rinv_upd; [exact Hr|]. unfold rinv; cbn. destruct (r =? 1); cbn; exact Hh.
-  - (* PDone Finish *) inversion Hs; subst; clear Hs. split.
-    + intro b'. cbn [counts reqs]. rewrite inflight_upd by exact Hlt. cbn [held]. rewrite dec_opt_at, Hc, Hrid. cbn [ind]. lia.
+  - (* PSent TunnelDialFail *) inversion Hs; subst; clear Hs. destruct Hrid as [Hh Ht]. split.
+    + close_counts Hlt Hc. rewrite Hh. cbn [ind]. lia.
     + cbn [reqs]. apply rinv_upd; [exact Hr|]. unfold rinv; cbn. reflexivity.
+  - (* PSent TunnelEnd *) inversion Hs; subst; clear Hs. destruct Hrid as [Hh Ht]. split.
+    + close_counts Hlt Hc. rewrite Hh. cbn [ind]. lia.
+    + cbn [reqs]. apply rinv_upd; [exact Hr|]. unfold rinv; cbn. reflexivity.
+  - (* PDone Finish *) inversion Hs; subst; clear Hs. split.
+    + close_counts Hlt Hc. rewrite Hrid. cbn [ind]. lia.
+    + cbn [reqs]. apply rinv_upd; [exact Hr|]. unfold rinv; cbn. reflexivity.
+Qed.
+
+(* reusing the slot of a request that holds nothing keeps the invariant *)
+Lemma reset_inv n s rid : (rid < n)%nat -> inv n s -> held (reqs s rid) = None -> inv n (reset s rid).
+Proof.
+  intros Hlt [Hc Hr] Hh. split.
+  - intro b. unfold reset. cbn [counts reqs]. rewrite inflight_upd by exact Hlt. rewrite Hh, Hc. cbn. lia.
+  - unfold reset. cbn [reqs]. apply rinv_upd; [exact Hr|reflexivity].
 Qed.
 
 Lemma run_inv n t : forall s s',
